@@ -192,7 +192,8 @@ def _get_addrinfo_list(hostname, port: int, is_secure: bool, proxy) -> tuple:
                 phost, pport, 0, socket.SOCK_STREAM, socket.SOL_TCP
             )
             return addrinfo_list, True, pauth
-    except socket.gaierror as e:
+    except (socket.gaierror, UnicodeError) as e:
+        # UnicodeError: the idna codec refuses the name (empty or over-long label)
         raise WebSocketAddressException(e)
 
 
